@@ -109,10 +109,10 @@ def run(chk, tier):
             if thorough:
                 model["two_ns1"] = ("two_ns1", common.tlc("LookupArg", cfg="LookupArg_two_ns1", workers=4, timeout=to, tag="c08two1"))
             if variant != "first":
-                model["prefix"] = ("impl_first", common.tlc("LookupArg", cfg="LookupArg_impl_first", workers=2, timeout=600, tag="c08first"))
+                model["prefix"] = ("impl_first", common.tlc("LookupArg", cfg="LookupArg_impl_first", workers=1, timeout=600, tag="c08first", heap="1g"))
 
             def can(d):
-                return d, common.tlc("LookupArg", cfg="LookupArg_canary_" + d, workers=2, timeout=600, tag="c08can" + d)
+                return d, common.tlc("LookupArg", cfg="LookupArg_canary_" + d, workers=1, timeout=600, tag="c08can" + d, heap="1g")
 
             with ThreadPoolExecutor(max_workers=3) as ex:
                 for d, r in ex.map(can, CANARIES):
@@ -152,7 +152,7 @@ def run(chk, tier):
     if thorough:
         chosen = list(scen)
     else:
-        quota = {"std": 62, "wide": 22, "narrow": 16}
+        quota = {"std": 44, "wide": 16, "narrow": 12}
         chosen = []
         for w, k in quota.items():
             pool = [s for s in scen if s["width"] == w]
@@ -182,7 +182,10 @@ def run(chk, tier):
         else:
             row["cfg"] = rnd.choice(by_width[w]["strong"])
         rows.append(row)
-    res = run_parallel(rows, "c08_run", 6, timeout=6000 if thorough else 1500)
+    import time
+    t0 = time.time()
+    res = run_parallel(rows, "c08_run", 6, extra=["--max-cor", "30" if thorough else "24"], timeout=6000 if thorough else 1500)
+    log("[c08] replay of %d scenarios: %d result lines in %.0fs" % (len(rows), len(res), time.time() - t0))
     byid = {s["id"]: s for s in rows}
     judge(chk, byid, res, rule, variant)
     # ---- binding canary: an (artificially) accepted violating assignment must surface
